@@ -272,6 +272,19 @@ impl C05 {
     }
 }
 
+impl C05 {
+    pub fn new_cached() -> &'static C05 {
+        static C: std::sync::OnceLock<C05> = std::sync::OnceLock::new();
+        C.get_or_init(C05::new)
+    }
+    pub fn ntypes(&self) -> usize {
+        self.infos.len()
+    }
+    pub fn type_name(&self, i: usize) -> &'static str {
+        self.infos[i].name
+    }
+}
+
 impl Property for C05 {
     type Case = Case;
     fn id(&self) -> &'static str {
